@@ -37,6 +37,12 @@ ASSUME RotateRefines ==
     \A g \in BitVecs(N) : \A p \in {0, 2} : \A gr \in BitVecs(N) : \A pr \in 0..3 :
         LET r == RotateImpl(g, p, gr, pr) IN Sigma(r[1], r[2]) = Rot(Sigma(g, p), Sigma(gr, pr))
 
+\* the map built from a rotation generator acts identically to the rotation itself (C03)
+ASSUME RotMapActs ==
+    \A G \in Gens : ValidMap(RotMap(G)) /\ \A P \in PS : Apply(RotMap(G), P) = Rot(G, P)
+\* emitted once: the generator maps used as right operands of compose along the walk
+ASSUME EmitRotMaps == EMITEDGES => \A G \in Gens : PrintT(ToString(<<"R", Enc(G), EncM(RotMap(G))>>))
+
 \* ---------------- the walk
 Init == m = IdMap(N) /\ minv = IdMap(N) /\ lbl = <<"init", Id(N)>>
 Step(G) == /\ m' = [j \in 1..2 * N |-> Rot(G, m[j])]
